@@ -8,7 +8,7 @@ RULE = ("generate -> execute -> validate. (1) Gen_BoolOps.tla: TLC enumerates ca
         "(2) The harness forms seeded random pairs / collections from that pool, applies representation variants (either winding, "
         "other start vertex, collinear vertices, repeated vertex, repeated first vertex, closing vertex repeated once or twice, empty "
         "polygon / empty multipolygon operand, identical operands, Polygon vs MultiPolygon entry point, named method vs boolean_op) "
-        "and exact maps (D4, translations by 1e8, scalings 2^+-20 / 2^40), calls intersection / union / difference / xor, "
+        "and exact maps (D4, translations by 1e8, scalings 2^+-20 / 2^40, unimodular shears = general slopes), calls intersection / union / difference / xor, "
         "unary_union (2-4 consistently wound members, cw or ccw, optionally led by an empty polygon; also the fold of pairwise unions) "
         "and clip (plain and inverted) and logs operands and results on the lattice. (3) Trace_BoolOps.tla judges every event from the "
         "point-set definition: membership of every face witness, no overlapping result members, ccw exteriors / cw holes, closed rings, "
